@@ -30,16 +30,18 @@ READS = ["get", "gets", "get_many", "gets_many"]
 WRITES = {
     # name -> list of (args, kwargs, expected positional args at the primary)
     "set": [(("k", "v"), {}, ("k", "v", 0, True)), (("k", "v", 30, False), {}, ("k", "v", 30, False)),
-            (("k", "v"), {"expire": 7}, ("k", "v", 7, True)), (("k", "v"), {"noreply": False}, ("k", "v", 0, False))],
+            (("k", "v"), {"expire": 7}, ("k", "v", 7, True)), (("k", "v"), {"noreply": False}, ("k", "v", 0, False)),
+            (("k", "v"), {"noreply": None}, ("k", "v", 0, None)), (("k", "v", 0, None), {}, ("k", "v", 0, None))],
     "add": [(("k", "v"), {}, ("k", "v", 0, True)), (("k", "v", 30, False), {}, ("k", "v", 30, False))],
     "replace": [(("k", "v"), {}, ("k", "v", 0, True)), (("k", "v", 30, False), {}, ("k", "v", 30, False))],
     "append": [(("k", "v"), {}, ("k", "v", 0, True)), (("k", "v", 30, False), {}, ("k", "v", 30, False))],
     "prepend": [(("k", "v"), {}, ("k", "v", 0, True)), (("k", "v", 30, False), {}, ("k", "v", 30, False))],
-    "cas": [(("k", "v", b"12"), {}, ("k", "v", b"12", 0, True)), (("k", "v", 5, 30, False), {}, ("k", "v", 5, 30, False))],
-    "delete": [(("k",), {}, ("k", True)), (("k", False), {}, ("k", False))],
+    "cas": [(("k", "v", b"12"), {}, ("k", "v", b"12", 0, True)), (("k", "v", 5, 30, False), {}, ("k", "v", 5, 30, False)),
+            (("k", "v", b"12"), {"noreply": None}, ("k", "v", b"12", 0, None))],
+    "delete": [(("k",), {}, ("k", True)), (("k", False), {}, ("k", False)), (("k",), {"noreply": None}, ("k", None))],
     "incr": [(("k", 3), {}, ("k", 3, True)), (("k", 3, False), {}, ("k", 3, False))],
     "decr": [(("k", 3), {}, ("k", 3, True)), (("k", 3, False), {}, ("k", 3, False))],
-    "touch": [(("k",), {}, ("k", 0, True)), (("k", 9, False), {}, ("k", 9, False))],
+    "touch": [(("k",), {}, ("k", 0, True)), (("k", 9, False), {}, ("k", 9, False)), (("k", 9, None), {}, ("k", 9, None))],
     "flush_all": [((), {}, (0, True)), ((5, False), {}, (5, False))],
 }
 
@@ -135,11 +137,15 @@ def build(fallback, caches, reconf):
 
 
 def run_scripted(res, fallback, n, hits, reconf=None):
-    for op in READS:
+    for op in READS + ["get_many:600", "gets_many:1100"]:
         log = []
         caches = [Cache(i, hits[i], log) for i in range(n)]
         fc = build(fallback, caches, reconf)
         arg = ["k1", "k2"] if op.endswith("many") else "k1"
+        if ":" in op:
+            # one call with hundreds of keys is still one read: one question per cache, the first non-empty answer wins
+            op, nk = op.split(":")
+            arg = ["k%d" % j for j in range(1, int(nk) + 1)]
         case = ("read", n, hits, op, reconf)
         try:
             r = getattr(fc, op)(arg)
@@ -295,6 +301,16 @@ def run_session(res, fallback, n, seed):
         op = rng.choice(READS + list(session_writes))
         if last_token is not None and rng.random() < 0.5:
             op = "cas"
+        if rng.random() < 0.06 and "raises" not in hits:
+            # close() closes the clients' connections; like Client.close() it does not retire the object - the next call
+            # works (and is judged) like any other
+            del log[:]
+            fc.close()
+            if sorted(e[0] for e in log) != list(range(n)) or any(e[1] != "close" for e in log):
+                res.violation("session:close-does-not-close-every-cache", "close() made the calls %r" % (log,), ("session", n, seed, step))
+                return
+            steps.append(("closed",))
+            res.count("session_closes")
         steps.append((hits, op))
         case = ("session", n, seed, step)
         del log[:]
